@@ -5,7 +5,8 @@
 cd /verif
 ids="$*"; [ -z "$ids" ] && ids=$(ls seeded)
 for id in $ids; do
-  prop=$(echo "$id" | cut -d- -f1)
+  prop=$(python3 -c "import json,sys; print(json.load(open('seeded/$id/meta.json')).get('breaks_property','').split()[0])" 2>/dev/null)
+  [ -z "$prop" ] && prop=$(echo "$id" | cut -d- -f1)
   out=$(sh tools/seedtest.sh "seeded/$id/patch.diff" "$prop" 2>&1)
   if echo "$out" | grep -q "does not apply"; then echo "$id patch-does-not-apply"; continue; fi
   n=$(echo "$out" | grep -c "^VIOLATION")
